@@ -92,6 +92,7 @@ func (clnt *Clnt) Rpcnb(r *Req) error {
 	}
 
 	SetTag(r.Tc, tag)
+	verifCPoint("rpcnb_enq", clnt, r)
 	clnt.Lock()
 	if clnt.err != nil {
 		clnt.Unlock()
@@ -108,6 +109,7 @@ func (clnt *Clnt) Rpcnb(r *Req) error {
 	clnt.reqlast = r
 	clnt.Unlock()
 
+	verifCPoint("rpcnb_handoff", clnt, r)
 	clnt.reqout <- r
 	return nil
 }
@@ -152,6 +154,7 @@ func (clnt *Clnt) recv() {
 			goto closed
 		}
 
+		verifCPoint("crecv_read", clnt, nil, n, pos, len(buf))
 		pos += n
 		for pos > 4 {
 			sz, _ := Gint32(buf)
@@ -223,16 +226,19 @@ func (clnt *Clnt) recv() {
 				}
 			}
 
+			verifCPoint("crecv_deliver", clnt, r)
 			if r.Done != nil {
 				r.Done <- r
 			}
 
+			verifCPoint("crecv_advance", clnt, r, fcsize, pos, len(buf))
 			pos -= fcsize
 			buf = buf[fcsize:]
 		}
 	}
 
 closed:
+	verifCPoint("crecv_closed", clnt, nil)
 	clnt.done <- true
 
 	/* send error to all pending requests */
@@ -246,6 +252,7 @@ closed:
 	clnt.Unlock()
 	for ; r != nil; r = r.next {
 		r.Err = err
+		verifCPoint("crecv_fanout", clnt, r)
 		if r.Done != nil {
 			r.Done <- r
 		}
@@ -277,6 +284,7 @@ func (clnt *Clnt) send() {
 			return
 
 		case req := <-clnt.reqout:
+			verifCPoint("csend_got", clnt, req)
 			if clnt.Debuglevel > 0 {
 				clnt.logFcall(req.Tc)
 				if clnt.Debuglevel&DbgPrintPackets != 0 {
